@@ -1,0 +1,168 @@
+//go:build verif
+
+package netty
+
+// Contracts for the verification machinery in /verif (comment-only; see /verif/DESIGN.md).
+
+// ---------------------------------------------------------------------------
+// C03: the pipeline as a doubly linked list with an abstract view.
+//   node(p, i)   ghost: the context at position i of pipeline p (0 = head, size-1 = tail)
+//   pos(c)       ghost: the position of context c in its pipeline
+//@ property C03
+//@ ghost node(ref, int) *handlerContext
+//@ ghost pos(ref) int
+//@ spec func plOf(hc *handlerContext) *pipeline = as(hc.pipeline, *pipeline)
+//@ spec func inlist(p *pipeline, c *handlerContext) bool = c != nil && 0 <= pos(c) && pos(c) < p.size && node(p, pos(c)) == c
+//@ spec func WFnodes(p *pipeline) bool = forall(i, 0, p.size, node(p, i) != nil && pos(node(p, i)) == i && is(node(p, i).pipeline, *pipeline) && as(node(p, i).pipeline, *pipeline) == p)
+//@ spec func WFlinks(p *pipeline) bool = forall(i, 0, p.size-1, node(p, i).next == node(p, i+1)) && forall(i, 1, p.size, node(p, i).prev == node(p, i-1))
+//@ spec func WFends(p *pipeline) bool = p != nil && p.size >= 2 && p.size < 1<<40 && node(p, 0) == p.head && node(p, p.size-1) == p.tail && p.head.prev == nil && p.tail.next == nil
+//@ spec func WF(p *pipeline) bool = WFends(p) && WFnodes(p) && WFlinks(p)
+
+// user handlers are arbitrary code: they may do anything to the heap and may panic
+//@ assume iface ActiveHandler.HandleActive
+//@   may_panic true
+//@   modifies all
+//@   preserves handlerContext.*, pipeline.*, ghost node, ghost pos
+//@ assume iface InboundHandler.HandleRead
+//@   may_panic true
+//@   modifies all
+//@   preserves handlerContext.*, pipeline.*, ghost node, ghost pos
+//@ assume iface OutboundHandler.HandleWrite
+//@   may_panic true
+//@   modifies all
+//@   preserves handlerContext.*, pipeline.*, ghost node, ghost pos
+//@ assume iface ExceptionHandler.HandleException
+//@   may_panic true
+//@   modifies all
+//@   preserves handlerContext.*, pipeline.*, ghost node, ghost pos
+//@ assume iface InactiveHandler.HandleInactive
+//@   may_panic true
+//@   modifies all
+//@   preserves handlerContext.*, pipeline.*, ghost node, ghost pos
+//@ assume iface EventHandler.HandleEvent
+//@   may_panic true
+//@   modifies all
+//@   preserves handlerContext.*, pipeline.*, ghost node, ghost pos
+
+//@ func (*handlerContext).nextContext
+//@   inline
+//@ func (*handlerContext).prevContext
+//@   inline
+
+//@ func (*handlerContext).HandleActive
+//@   requires hc != nil && is(hc.pipeline, *pipeline) && WF(plOf(hc)) && inlist(plOf(hc), hc)
+//@   may_panic true
+//@   loop 0 modifies none
+//@   loop 0 invariant inl: inlist(plOf(hc), next) && pos(next) >= pos(hc)
+//@   loop 0 invariant skipped: forall(l, pos(hc)+1, pos(next)+1, node(plOf(hc), l).cast2Active == nil)
+//@   loop 0 decreases plOf(hc).size - pos(next)
+//@   ensures atmost: nemitted() <= 1
+//@   ensures target: implies(nemitted() == 1, evis(0, "ActiveHandler.HandleActive") && is(evarg(0, 0), *handlerContext) && at(0, inlist(plOf(hc), as(evarg(0, 0), *handlerContext)) && pos(as(evarg(0, 0), *handlerContext)) > pos(hc) && as(evarg(0, 0), *handlerContext).cast2Active != nil && evrecv(0) == as(evarg(0, 0), *handlerContext).cast2Active && forall(l, pos(hc)+1, pos(as(evarg(0, 0), *handlerContext)), node(plOf(hc), l).cast2Active == nil)))
+//@   ensures none: implies(nemitted() == 0, forall(l, pos(hc)+1, plOf(hc).size, node(plOf(hc), l).cast2Active == nil))
+//@   ensures_panic routed: nemitted() == 1 && evis(0, "ActiveHandler.HandleActive")
+
+//@ func (*handlerContext).HandleRead
+//@   requires hc != nil && is(hc.pipeline, *pipeline) && WF(plOf(hc)) && inlist(plOf(hc), hc)
+//@   may_panic true
+//@   loop 0 modifies none
+//@   loop 0 invariant inl: inlist(plOf(hc), next) && pos(next) >= pos(hc)
+//@   loop 0 invariant skipped: forall(l, pos(hc)+1, pos(next)+1, node(plOf(hc), l).cast2Inbound == nil)
+//@   loop 0 decreases plOf(hc).size - pos(next)
+//@   ensures atmost: nemitted() <= 1
+//@   ensures target: implies(nemitted() == 1, evis(0, "InboundHandler.HandleRead") && is(evarg(0, 0), *handlerContext) && evarg(0, 1) == message && at(0, inlist(plOf(hc), as(evarg(0, 0), *handlerContext)) && pos(as(evarg(0, 0), *handlerContext)) > pos(hc) && as(evarg(0, 0), *handlerContext).cast2Inbound != nil && evrecv(0) == as(evarg(0, 0), *handlerContext).cast2Inbound && forall(l, pos(hc)+1, pos(as(evarg(0, 0), *handlerContext)), node(plOf(hc), l).cast2Inbound == nil)))
+//@   ensures none: implies(nemitted() == 0, forall(l, pos(hc)+1, plOf(hc).size, node(plOf(hc), l).cast2Inbound == nil))
+//@   ensures_panic routed: nemitted() == 1 && evis(0, "InboundHandler.HandleRead")
+
+//@ func (*handlerContext).HandleException
+//@   requires hc != nil && is(hc.pipeline, *pipeline) && WF(plOf(hc)) && inlist(plOf(hc), hc)
+//@   may_panic true
+//@   loop 0 modifies none
+//@   loop 0 invariant inl: inlist(plOf(hc), next) && pos(next) >= pos(hc)
+//@   loop 0 invariant skipped: forall(l, pos(hc)+1, pos(next)+1, node(plOf(hc), l).cast2Exception == nil)
+//@   loop 0 decreases plOf(hc).size - pos(next)
+//@   ensures atmost: nemitted() <= 1
+//@   ensures target: implies(nemitted() == 1, evis(0, "ExceptionHandler.HandleException") && is(evarg(0, 0), *handlerContext) && evarg(0, 1) == ex && at(0, inlist(plOf(hc), as(evarg(0, 0), *handlerContext)) && pos(as(evarg(0, 0), *handlerContext)) > pos(hc) && as(evarg(0, 0), *handlerContext).cast2Exception != nil && evrecv(0) == as(evarg(0, 0), *handlerContext).cast2Exception && forall(l, pos(hc)+1, pos(as(evarg(0, 0), *handlerContext)), node(plOf(hc), l).cast2Exception == nil)))
+//@   ensures none: implies(nemitted() == 0, forall(l, pos(hc)+1, plOf(hc).size, node(plOf(hc), l).cast2Exception == nil))
+//@   ensures_panic routed: nemitted() == 1 && evis(0, "ExceptionHandler.HandleException")
+
+//@ func (*handlerContext).HandleInactive
+//@   requires hc != nil && is(hc.pipeline, *pipeline) && WF(plOf(hc)) && inlist(plOf(hc), hc)
+//@   may_panic true
+//@   loop 0 modifies none
+//@   loop 0 invariant inl: inlist(plOf(hc), next) && pos(next) >= pos(hc)
+//@   loop 0 invariant skipped: forall(l, pos(hc)+1, pos(next)+1, node(plOf(hc), l).cast2Inactive == nil)
+//@   loop 0 decreases plOf(hc).size - pos(next)
+//@   ensures atmost: nemitted() <= 1
+//@   ensures target: implies(nemitted() == 1, evis(0, "InactiveHandler.HandleInactive") && is(evarg(0, 0), *handlerContext) && evarg(0, 1) == ex && at(0, inlist(plOf(hc), as(evarg(0, 0), *handlerContext)) && pos(as(evarg(0, 0), *handlerContext)) > pos(hc) && as(evarg(0, 0), *handlerContext).cast2Inactive != nil && evrecv(0) == as(evarg(0, 0), *handlerContext).cast2Inactive && forall(l, pos(hc)+1, pos(as(evarg(0, 0), *handlerContext)), node(plOf(hc), l).cast2Inactive == nil)))
+//@   ensures none: implies(nemitted() == 0, forall(l, pos(hc)+1, plOf(hc).size, node(plOf(hc), l).cast2Inactive == nil))
+//@   ensures_panic routed: nemitted() == 1 && evis(0, "InactiveHandler.HandleInactive")
+
+//@ func (*handlerContext).HandleEvent
+//@   requires hc != nil && is(hc.pipeline, *pipeline) && WF(plOf(hc)) && inlist(plOf(hc), hc)
+//@   may_panic true
+//@   loop 0 modifies none
+//@   loop 0 invariant inl: inlist(plOf(hc), next) && pos(next) >= pos(hc)
+//@   loop 0 invariant skipped: forall(l, pos(hc)+1, pos(next)+1, node(plOf(hc), l).cast2Event == nil)
+//@   loop 0 decreases plOf(hc).size - pos(next)
+//@   ensures atmost: nemitted() <= 1
+//@   ensures target: implies(nemitted() == 1, evis(0, "EventHandler.HandleEvent") && is(evarg(0, 0), *handlerContext) && evarg(0, 1) == event && at(0, inlist(plOf(hc), as(evarg(0, 0), *handlerContext)) && pos(as(evarg(0, 0), *handlerContext)) > pos(hc) && as(evarg(0, 0), *handlerContext).cast2Event != nil && evrecv(0) == as(evarg(0, 0), *handlerContext).cast2Event && forall(l, pos(hc)+1, pos(as(evarg(0, 0), *handlerContext)), node(plOf(hc), l).cast2Event == nil)))
+//@   ensures none: implies(nemitted() == 0, forall(l, pos(hc)+1, plOf(hc).size, node(plOf(hc), l).cast2Event == nil))
+//@   ensures_panic routed: nemitted() == 1 && evis(0, "EventHandler.HandleEvent")
+
+//@ func (*handlerContext).HandleWrite
+//@   requires hc != nil && is(hc.pipeline, *pipeline) && WF(plOf(hc)) && inlist(plOf(hc), hc)
+//@   may_panic true
+//@   loop 0 modifies none
+//@   loop 0 invariant inl: inlist(plOf(hc), prev) && pos(prev) <= pos(hc)
+//@   loop 0 invariant skipped: forall(l, pos(prev), pos(hc), node(plOf(hc), l).cast2Outbound == nil)
+//@   loop 0 decreases pos(prev)
+//@   ensures atmost: nemitted() <= 1
+//@   ensures target: implies(nemitted() == 1, evis(0, "OutboundHandler.HandleWrite") && is(evarg(0, 0), *handlerContext) && evarg(0, 1) == message && at(0, inlist(plOf(hc), as(evarg(0, 0), *handlerContext)) && pos(as(evarg(0, 0), *handlerContext)) < pos(hc) && as(evarg(0, 0), *handlerContext).cast2Outbound != nil && evrecv(0) == as(evarg(0, 0), *handlerContext).cast2Outbound && forall(l, pos(as(evarg(0, 0), *handlerContext))+1, pos(hc), node(plOf(hc), l).cast2Outbound == nil)))
+//@   ensures none: implies(nemitted() == 0, forall(l, 0, pos(hc), node(plOf(hc), l).cast2Outbound == nil))
+//@   ensures_panic routed: nemitted() == 1 && evis(0, "OutboundHandler.HandleWrite")
+
+//@ func (*handlerContext).Write
+//@   requires hc != nil && is(hc.pipeline, *pipeline) && WF(plOf(hc)) && inlist(plOf(hc), hc) && plOf(hc).channel != nil
+//@   loop 0 modifies none
+//@   loop 0 invariant inl: inlist(plOf(hc), next) && pos(next) <= pos(hc)
+//@   loop 0 invariant skipped: forall(l, pos(next), pos(hc), node(plOf(hc), l).cast2Outbound == nil)
+//@   loop 0 decreases pos(next)
+//@   ensures atmost: count("OutboundHandler.HandleWrite") <= 1 && nemitted() <= 2
+//@   ensures exception: implies(nemitted() == 2, evis(0, "OutboundHandler.HandleWrite") && evis(1, "Pipeline.FireChannelException"))
+//@   ensures only_handler: implies(nemitted() == 1, evis(0, "OutboundHandler.HandleWrite"))
+//@   ensures target: implies(count("OutboundHandler.HandleWrite") == 1, evis(0, "OutboundHandler.HandleWrite") && is(evarg(0, 0), *handlerContext) && evarg(0, 1) == message && at(0, inlist(plOf(hc), as(evarg(0, 0), *handlerContext)) && pos(as(evarg(0, 0), *handlerContext)) < pos(hc) && as(evarg(0, 0), *handlerContext).cast2Outbound != nil && evrecv(0) == as(evarg(0, 0), *handlerContext).cast2Outbound && forall(l, pos(as(evarg(0, 0), *handlerContext))+1, pos(hc), node(plOf(hc), l).cast2Outbound == nil)))
+//@   ensures none: implies(count("OutboundHandler.HandleWrite") == 0, forall(l, 0, pos(hc), node(plOf(hc), l).cast2Outbound == nil))
+
+//@ func (*handlerContext).Trigger
+//@   requires hc != nil && is(hc.pipeline, *pipeline) && WF(plOf(hc)) && inlist(plOf(hc), hc) && plOf(hc).channel != nil
+//@   loop 0 modifies none
+//@   loop 0 invariant inl: inlist(plOf(hc), next) && pos(next) >= pos(hc)
+//@   loop 0 invariant skipped: forall(l, pos(hc)+1, pos(next)+1, node(plOf(hc), l).cast2Event == nil)
+//@   loop 0 decreases plOf(hc).size - pos(next)
+//@   ensures atmost: count("EventHandler.HandleEvent") <= 1 && nemitted() <= 2
+//@   ensures exception: implies(nemitted() == 2, evis(0, "EventHandler.HandleEvent") && evis(1, "Pipeline.FireChannelException"))
+//@   ensures only_handler: implies(nemitted() == 1, evis(0, "EventHandler.HandleEvent"))
+//@   ensures target: implies(count("EventHandler.HandleEvent") == 1, evis(0, "EventHandler.HandleEvent") && is(evarg(0, 0), *handlerContext) && evarg(0, 1) == event && at(0, inlist(plOf(hc), as(evarg(0, 0), *handlerContext)) && pos(as(evarg(0, 0), *handlerContext)) > pos(hc) && as(evarg(0, 0), *handlerContext).cast2Event != nil && evrecv(0) == as(evarg(0, 0), *handlerContext).cast2Event && forall(l, pos(hc)+1, pos(as(evarg(0, 0), *handlerContext)), node(plOf(hc), l).cast2Event == nil)))
+//@   ensures none: implies(count("EventHandler.HandleEvent") == 0, forall(l, pos(hc)+1, plOf(hc).size, node(plOf(hc), l).cast2Event == nil))
+
+// context accessors
+//@ func (*handlerContext).Channel
+//@   inline
+// the pipeline of a context and the channel of a pipeline do not change while events flow
+// (the statement excludes pipeline mutation during event delivery)
+//@ assume iface Pipeline.Channel
+//@   noevent
+//@   ensures implies(is(recv, *pipeline), result == as(recv, *pipeline).channel)
+//@ assume iface Channel.Pipeline
+//@   noevent
+//@   ensures result != nil
+// "provided exception handlers do not themselves panic" (C07): no may_panic here
+//@ assume iface Pipeline.FireChannelException
+//@   modifies all
+//@   preserves handlerContext.*, pipeline.*, ghost node, ghost pos
+
+//@ property C07 C03
+//@ func AsException
+//@   ensures nil_stays_nil: implies(ex == nil, result == nil)
+//@   ensures errors_unchanged: implies(ex != nil && impl(ex, error), result == ex)
+//@   ensures non_nil: implies(ex != nil, result != nil)
